@@ -13,9 +13,22 @@ N = N_ORDER
 
 def main():
     chk = Check('C16')
+    only = os.environ.get('VERIF_ONLY', '')
+    tasks = build(chk, only)
+    from .common import include_dependency
+    if not only or 'dep' in only:
+        include_dependency(chk, tasks, 'C04', '', 'a one-element batch is delegated to ScalarMult / scalarMultVartimeGLV, and DoubleScalarMultBasepointVartime uses the latter (abstract-group layer: contract s*P)')
+        include_dependency(chk, tasks, 'C05', 'table lookup basemult', 'DoubleScalarMultBasepointVartime computes u1*G with scalarBaseMultVartime (contract)')
+    chk.run_tasks(tasks)
+    chk.discharge()
+    chk.finish()
+
+
+def build(chk, only=''):
+    """append this check's tasks (restricted to the groups named in `only`) to a task list; also used by the checks that
+    depend on this one's contracts (common.include_dependency)"""
     prog = load_prog()
     gl = load_globals(prog)
-    only = os.environ.get('VERIF_ONLY', '')
     chk.summaries.update(GA.SUMMARY)
     chk.summaries['projectivePointMultTable.SelectAndAdd/SelectAndAddVartime'] = "sum' = sum + idx*tbl[0] for a table with tbl[i] = (i+1)*tbl[0]: discharged by C04 lookup/*, table/*"
     chk.summaries['ScalarMult / scalarMultVartimeGLV / scalarBaseMultVartime'] = 's*P resp. s*G: discharged by C04 and C05'
@@ -122,7 +135,7 @@ def main():
                     if recv is None or pattern[i] != pattern[recv]:
                         pl = m.grp_get(pts[i])
                         ctx.check(set(pl.c) == {'P%d' % pattern[i]} and z3.is_true(z3.simplify(pl.coeff('P%d' % pattern[i]) == 1)), 'point-unchanged')
-                goal = z3.And([got.coeff(b) == e for b, e in want.items()] + [got.coeff(k) == 0 for k in got.c if k not in want])
+                goal = z3.And([GA.eq_coeff(m, got, b, e) for b, e in want.items()] + [GA.eq_coeff(m, got, k, 0) for k in got.c if k not in want])
                 return (pc, goal)
             lbl = 'msm/%s@len%d[points=%s,receiver=%s]' % (fn, l, ','.join(map(str, pattern)), 'fresh' if recv is None else 'entry%d' % recv)
             paths = sub.explore(lbl, h, mode='bv')
@@ -194,8 +207,8 @@ def main():
                 got = m.grp_get(v)
                 pc = [m.bvlow.lo(c) for c in ctx.pc if isinstance(c, tm.T)]
                 ctx.check(r.same(v), 'returns-receiver')
-                goal = z3.And([got.coeff('G') == z3.BV2Int(m.bvlow.lo(U1)), got.coeff('P') == z3.BV2Int(m.bvlow.lo(U2))] +
-                              [got.coeff(k) == 0 for k in got.c if k not in ('G', 'P')])
+                goal = z3.And([got.coeff('G') == z3.BV2Int(m.bvlow.lo(U1)), GA.eq_coeff(m, got, 'P', z3.BV2Int(m.bvlow.lo(U2)))] +
+                              [GA.eq_coeff(m, got, k, 0) for k in got.c if k not in ('G', 'P')])
                 return (pc, goal)
             lbl = 'dsm/DoubleScalarMultBasepointVartime[%s]' % ('v=p' if alias else 'v|p')
             paths = sub.explore(lbl, h, mode='bv')
@@ -209,9 +222,7 @@ def main():
         tasks.append(('dsm', t_dsm(True)))
         chk.bounds.append('DoubleScalarMultBasepointVartime: all u1, u2 in [0,n), P arbitrary, receiver fresh or aliasing P')
 
-    chk.run_tasks(tasks)
-    chk.discharge()
-    chk.finish()
+    return tasks
 
 
 if __name__ == '__main__':
